@@ -253,8 +253,51 @@ def run(res, tier, seed):
             res.count('flatten_' + ('ok' if a[0][0] == 0 else 'err%s' % (a[0][1],)))
     for i in range(300 if tier == 'quick' else 5000):
         oracle_reduce(res, rng)
+    run_all_leaves(res, rng, n, limit)
     for c in cmds[:3]:
         res.sample(sx.dump(c)[:500])
+
+
+def run_all_leaves(res, rng, n, limit):
+    """cmd 32: all_leaves(xs) against the model, on element lists in which objects of ONE type that the options
+    classify differently (a value-dependent predicate, a class registered in one namespace only, None) stand next
+    to each other in every order; oracle: all_leaves(xs) == every tree_is_leaf(x) == every flatten(x) gives [x]"""
+    cmds, obs = [], []
+    for i in range(n):
+        cfg = gen.gen_cfg(rng, limit)
+        if rng.random() < 0.5:
+            cfg = (cfg[0], cfg[1], rng.choice([1, 2, 3, 3, 3, 4, 5]), cfg[3], cfg[4], cfg[5])
+        g = gen.TreeGen(rng, world.STRUCTSEQ_ARITY, max_nodes=rng.choice([1, 2, 4]), max_depth=2, max_arity=3, none_p=0.2)
+        pool = [g.tree() for _ in range(rng.randrange(1, 4))]
+        # lists of one and of two elements (predicate 3 accepts exactly the two-element lists), leaves whose id
+        # predicate 3 accepts / rejects, empty containers
+        pool += [(1, (2,), g.leaf()), (1, (2,), g.leaf(), g.leaf()), (0, 3 * rng.randrange(1, 50)), (0, 3 * rng.randrange(1, 50) + 1),
+                 (1, (1,)), (1, (1,), g.leaf()), (1, (0,))]
+        k = rng.choice([0, 1, 2, 2, 3, 3, 4, 6])
+        xs = tuple(rng.choice(pool) for _ in range(k))
+        with World(cfg) as w:
+            kw = w.kw()
+            elems = [realize(x, random.Random(100 * i + j), {}) for j, x in enumerate(xs)]
+            cont = rng.choice(['list', 'tuple', 'iter'])
+            arg = list(elems) if cont == 'list' else tuple(elems) if cont == 'tuple' else iter(list(elems))
+            al = attempt(lambda: optree.all_leaves(arg, **kw))
+            each = attempt(lambda: [optree.tree_is_leaf(x, **kw) for x in elems])
+            res.evaluations += 1
+            case = (32, cfg, xs)
+            if al[0] == 0 and each[0] == 0:
+                if al[1] != all(each[1]):
+                    res.fail('all_leaves(xs) differs from every element being a leaf (tree_is_leaf)', case, f'{al[1]} vs {each[1]}')
+                fl = attempt(lambda: [(lambda r: len(r[0]) == 1 and r[0][0] is x and r[1].is_leaf())(optree.tree_flatten(x, **kw))
+                                      for x in elems])
+                if fl[0] == 0 and fl[1] != each[1]:
+                    res.fail('tree_is_leaf(x) differs from "flatten gives [x] with a leaf treespec"', case)
+                res.count('all_leaves_%s' % al[1])
+            o = (0, 1 if al[1] else 0, tuple(1 if b else 0 for b in each[1])) if al[0] == 0 and each[0] == 0 else (al if al[0] != 0 else each)
+        cmds.append(case)
+        obs.append(o)
+    mod = runner.run_model(cmds)
+    for c, a, b in zip(cmds, obs, mod):
+        res.compare(c, a, b, 'cmd_all_leaves')
 
 
 if __name__ == '__main__':
